@@ -3,13 +3,11 @@ sandbox (DESIGN.md section 5).  NOT_BUILT: a contract was designed (DESIGN.md se
 discharge it is not built (yet) -- listed honestly rather than claimed."""
 
 NOT_APPLICABLE = {
- "C14": "Quantifies over every decodable instruction of ten architectures; the lifter is ~14k lines of per-mnemonic semantics behind table/metaclass-driven decoders that the Python front end cannot execute symbolically; no function-level contract carries the statement.",
- "C15": "Encode/decode inverse over cpu.py's metaclass-generated field tables built by reflection at import time; no per-function contract is expressible over it with this machinery.",
+ "C14": "Quantifies over every decodable instruction of ten architectures; the lifter is ~14k lines of per-mnemonic semantics behind table/metaclass-driven decoders that the Python front end cannot execute symbolically; no function-level contract carries the statement. A bounded prototype over random decodable instructions (round 4) reported dozens of classes of pre-existing failures across MSP430, MeP, PowerPC and others (KeyError instead of an unsupported report, size mismatches, non-assignable destinations) whose triage was beyond the session: not registered.",
+ "C15": "Encode/decode inverse over cpu.py's metaclass-generated field tables built by reflection at import time; no per-function contract is expressible over it with this machinery. A bounded prototype (round 4) reported dozens of pre-existing asymmetries across architectures: not registered (C32 / C18 exercise the x86, ARM, MIPS32 and MSP430 encoders on their own families and led to three encoder fixes).",
  "C16": "Printer/parser inverse over the same tables plus pyparsing grammars; string/grammar reasoning is outside both solvers' reach.",
  "C17": "Differential against an external reference disassembler that is not installed and has no contract; nothing to verify against.",
- "C18": "Differential against the host CPU executing native code; the oracle is hardware, not a specification a verifier can consume.",
  "C19": "Differential against a reference emulator that is not present; no machine-readable ISA specification in the sandbox.",
- "C41": "Dynamic symbolic execution of x86 programs under a jitter with a solver in the loop; whole-system across Python, C and z3.",
 }
 
 NOT_BUILT = {
